@@ -72,7 +72,7 @@ def impliedExceptP (n : EName) : Bool := if htmlIn n ["p"] then false else curso
 def impliedExcept (except : Str) (n : EName) : Bool :=
   if n.ns == nsHtml && n.loc == except then false else cursoryImpliedEnd n
 /-- `process_chars_in_table: table_outer` -/
-def tableOuterChars (n : EName) : Bool := htmlIn n ["table", "tbody", "tfoot", "thead", "tr"]
+def tableOuterChars (n : EName) : Bool := htmlIn n ["table", "tbody", "template", "tfoot", "thead", "tr"]
 /-- `insert_element: form_associatable` -/
 def formAssociatable (n : EName) : Bool :=
   htmlIn n ["button", "fieldset", "input", "object", "output", "select", "textarea", "img"]
